@@ -341,24 +341,36 @@ def run_whole(trigger, at, su_dur, su_fails, cu_dur, handler_dur, peering=False,
         return {'name': name, 'singularName': kind.lower(), 'kind': kind, 'namespaced': namespaced, 'shortNames': [], 'categories': [],
                 'verbs': ['get', 'list', 'watch', 'patch', 'create', 'delete']}
 
-    from vkopf.props.c07 import _Log
-    server.log = _Log(lambda: loop._now)
-    server.log.new = asyncio.Event()
+    from vkopf import opworld
+    server.log = opworld.NotifyingLog()
 
-    async def watch_stream(kind, since=0):
+    async def watch_stream(kind, since, resp):
         # an ordered reader of the server's change log (every write, also the operator's own, comes back as an event);
-        # the connection stays open; a scripted fault ends or breaks it
+        # the connection stays open until the client closes the response
         if kind != 'obj':
-            await asyncio.Event().wait()
-        i = 0
-        while True:
-            while i >= len(server.log):
-                server.log.new.clear()
-                await server.log.new.wait()
-            rv, snap = server.log[i]
-            i += 1
-            if rv > since:
-                yield (_json.dumps({'type': 'MODIFIED', 'object': snap}) + '\n').encode()
+            await resp.closed_ev.wait()
+            raise aiohttp.ClientConnectionError('closed')
+        new = asyncio.Event()
+        server.log.readers.append(new)
+        try:
+            i = 0
+            while True:
+                while i >= len(server.log):
+                    if resp.closed:
+                        raise aiohttp.ClientConnectionError('the connection was closed by the client')
+                    new.clear()
+                    w1, w2 = asyncio.ensure_future(new.wait()), asyncio.ensure_future(resp.closed_ev.wait())
+                    try:
+                        await asyncio.wait({w1, w2}, return_when=asyncio.FIRST_COMPLETED)
+                    finally:
+                        w1.cancel()
+                        w2.cancel()
+                rv, snap = server.log[i]
+                i += 1
+                if rv > since:
+                    yield (_json.dumps({'type': 'MODIFIED', 'object': snap}) + '\n').encode()
+        finally:
+            server.log.readers.remove(new)
 
     async def serve(sess, method, url, payload, headers, timeout):
         path = url[len('http://fake'):]
@@ -384,11 +396,13 @@ def run_whole(trigger, at, su_dur, su_fails, cu_dur, handler_dur, peering=False,
                     if stream_fault == 'http500' :
                         return FakeResponse(500, body={'kind': 'Status', 'message': 'boom', 'code': 500})
                     since = int(path.split('resourceVersion=')[1].split('&')[0]) if 'resourceVersion=' in path else 0
-                    return FakeResponse(200, stream=watch_stream('obj', since))
+                    resp = FakeResponse(200)
+                    return resp.attach_stream(watch_stream('obj', since, resp))
                 return FakeResponse(200, body={'metadata': {'resourceVersion': str(server.rv)}, 'items': [server.obj] if server.obj else []})
             if base == f'/apis/{GROUP_}/v1/clusterkopfpeerings' or base.startswith(f'/apis/{GROUP_}/v1/clusterkopfpeerings/'):
                 if 'watch=true' in path:
-                    return FakeResponse(200, stream=watch_stream('peering'))
+                    resp = FakeResponse(200)
+                    return resp.attach_stream(watch_stream('peering', 0, resp))
                 if base.endswith('/default'):
                     return FakeResponse(200, body=peer_obj)
                 return FakeResponse(200, body={'metadata': {'resourceVersion': '1'}, 'items': [peer_obj]})
